@@ -128,148 +128,3 @@ Proof.
   intros [->|H]; [lia|]. specialize (IH H). lia.
 Qed.
 
-(* evaluating a list of operands *)
-Lemma mapM_agrees n (ps : list expr) rs :
-  (forall p r, In p ps -> spec p = Some r -> exists v, eval n p = Ok v /\ agrees v r) ->
-  mapO spec ps = Some rs ->
-  exists vs, mapM (eval n) ps = Ok vs /\ Forall2 agrees vs rs.
-Proof.
-  revert rs. induction ps as [|p ps IH]; cbn; intros rs H Hm.
-  - inversion Hm. exists []. split; [reflexivity|constructor].
-  - destruct (spec p) as [r|] eqn:Sp; [|discriminate].
-    destruct (mapO spec ps) as [rs'|] eqn:Sps; [|discriminate]. inversion Hm; subst rs.
-    destruct (H p r (or_introl eq_refl) Sp) as [v [Hv Ha]]. rewrite Hv; cbn.
-    destruct (IH rs' (fun q r' Hq => H q r' (or_intror Hq)) eq_refl) as [vs [Hvs HF]]. rewrite Hvs; cbn.
-    exists (v :: vs). split; [reflexivity|now constructor].
-Qed.
-
-Lemma agrees_concat vs rs : Forall2 agrees vs rs -> concat (map flat_e vs) = concat (map snd rs).
-Proof. induction 1 as [|v r vs rs [_ Hf] _ IH]; cbn; [reflexivity|]. unfold flat_e at 1. now rewrite Hf, IH. Qed.
-
-Lemma ctor_agrees k vs rs m : Forall2 agrees vs rs -> option_map erase_m (km k) = m ->
-  exists v, mkc k vs = Ok v /\ agrees v (sctor m rs).
-Proof.
-  intros HF Hm. destruct (mkc_total k vs) as [v [Hv _]]. exists v. split; [exact Hv|]. split.
-  - cbn. now rewrite (mkc_top _ _ _ Hv).
-  - cbn [sctor snd]. change (erase (flat v)) with (flat_e v).
-    rewrite (mkc_flat_e _ _ _ Hv), (agrees_concat _ _ HF). subst m. unfold pushk_e, push_opt.
-    destruct (km k); reflexivity.
-Qed.
-
-Lemma eval_S f e : eval (S f) e =
-    let ev := eval f in
-    match e with
-    | EStr s => Ok (RStr s)
-    | ESym n => Ok (RSym n)
-    | EBad => Crash
-    | EText ps => do vs <- mapM ev ps; mkc KText vs
-    | ETag n ps => do vs <- mapM ev ps; mkc (KTag n) vs
-    | EHRef u x ps => do vs <- mapM ev ps; mkc (KHRef u x) vs
-    | EProt ps => do vs <- mapM ev ps; mkc KProt vs
-    | EUpper a => do v <- ev a; case_c true v
-    | ELower a => do v <- ev a; case_c false v
-    | ECapitalize a => do v <- ev a; capitalize v
-    | ECapfirst a => do v <- ev a; capfirst v
-    | EAddPeriod a p => do v <- ev a; add_period v p
-    | EAbbrev a => do v <- ev a; abbreviate v
-    | ESlice a i j => do v <- ev a; getitem_c v (KSlice i j)
-    | EIndex a i => do v <- ev a; getitem_c v (KInt i)
-    | EAdd a b => do v <- ev a; do w <- ev b; add v w
-    | EAppend a b => do v <- ev a; do w <- ev b; append v w
-    | EJoin s es => do v <- ev s; do ws <- mapM ev es; rjoin v ws
-    | ESplitNth a sep keep k =>
-      do v <- ev a; do l <- split_c v sep keep;
-      match nth_error l k with Some x => Ok x | None => Crash end
-    end.
-Proof. reflexivity. Qed.
-
-Theorem ops_compose_lem n : forall e r, esize e <= n -> spec e = Some r ->
-  exists v, eval (S n) e = Ok v /\ agrees v r.
-Proof.
-  induction n as [|n IH]; intros e r Hs Hsp; [destruct e; cbn in Hs; lia|].
-  assert (IHl : forall ps, list_sum (map esize ps) <= n ->
-            forall p r, In p ps -> spec p = Some r -> exists v, eval (S n) p = Ok v /\ agrees v r).
-  { intros ps Hps p r' Hin. apply IH. pose proof (esize_in p ps Hin). lia. }
-  destruct e; cbn [spec] in Hsp; try discriminate; cbn [esize] in Hs; rewrite eval_S; cbv beta iota zeta.
-  - inversion Hsp; subst r. eexists. split; [reflexivity|]. split; [reflexivity|]. cbn. unfold erase. now rewrite map_map.
-  - inversion Hsp; subst r. eexists. split; [reflexivity|]. split; reflexivity.
-  - destruct (mapO spec ps) as [rs|] eqn:M; [|discriminate]. inversion Hsp; subst r.
-    destruct (mapM_agrees (S n) ps rs (IHl ps ltac:(lia)) M) as [vs [Hvs HF]]. rewrite Hvs; cbn [bind].
-    apply ctor_agrees; [exact HF|reflexivity].
-  - destruct (mapO spec ps) as [rs|] eqn:M; [|discriminate]. inversion Hsp; subst r.
-    destruct (mapM_agrees (S n) ps rs (IHl ps ltac:(lia)) M) as [vs [Hvs HF]]. rewrite Hvs; cbn [bind].
-    apply ctor_agrees; [exact HF|reflexivity].
-  - destruct (mapO spec ps) as [rs|] eqn:M; [|discriminate]. inversion Hsp; subst r.
-    destruct (mapM_agrees (S n) ps rs (IHl ps ltac:(lia)) M) as [vs [Hvs HF]]. rewrite Hvs; cbn [bind].
-    apply ctor_agrees; [exact HF|reflexivity].
-  - destruct (mapO spec ps) as [rs|] eqn:M; [|discriminate]. inversion Hsp; subst r.
-    destruct (mapM_agrees (S n) ps rs (IHl ps ltac:(lia)) M) as [vs [Hvs HF]]. rewrite Hvs; cbn [bind].
-    apply ctor_agrees; [exact HF|reflexivity].
-  - (* upper *)
-    destruct (spec e) as [ra|] eqn:Sa; [|discriminate]. inversion Hsp; subst r.
-    destruct (IH e ra ltac:(lia) Sa) as [a [Ha [Ht Hf]]]. rewrite Ha; cbn [bind].
-    destruct (case_flat_e true a) as [v [Hv Hfv]]. exists v. split; [exact Hv|]. split; cbn [fst snd].
-    + now rewrite (case_c_top _ _ _ Hv).
-    + now rewrite Hfv, conv_erase, Hf.
-  - (* lower *)
-    destruct (spec e) as [ra|] eqn:Sa; [|discriminate]. inversion Hsp; subst r.
-    destruct (IH e ra ltac:(lia) Sa) as [a [Ha [Ht Hf]]]. rewrite Ha; cbn [bind].
-    destruct (case_flat_e false a) as [v [Hv Hfv]]. exists v. split; [exact Hv|]. split; cbn [fst snd].
-    + now rewrite (case_c_top _ _ _ Hv).
-    + now rewrite Hfv, conv_erase, Hf.
-  - (* capitalize *)
-    destruct (spec e) as [ra|] eqn:Sa; [|discriminate]. inversion Hsp; subst r.
-    destruct (IH e ra ltac:(lia) Sa) as [a [Ha [Ht Hf]]]. rewrite Ha; cbn [bind].
-    destruct (capitalize_flat_e a) as [v [Hv Hfv]]. exists v. split; [exact Hv|]. split; cbn [fst snd].
-    + rewrite <- Ht. destruct a; cbn in Hv |- *;
-        try (inversion Hv; reflexivity);
-        repeat (apply bind_ok in Hv as [? [_ Hv]]); unfold add in Hv; now rewrite (mkc_top _ _ _ Hv).
-    + now rewrite Hfv, Hf.
-  - (* capfirst *)
-    destruct (spec e) as [ra|] eqn:Sa; [|discriminate]. inversion Hsp; subst r.
-    destruct (IH e ra ltac:(lia) Sa) as [a [Ha [Ht Hf]]]. rewrite Ha; cbn [bind].
-    destruct (capfirst_flat_e a) as [v [Hv Hfv]]. exists v. split; [exact Hv|]. split; cbn [fst snd].
-    + rewrite <- Ht. destruct a; cbn in Hv |- *;
-        try (inversion Hv; reflexivity);
-        repeat (apply bind_ok in Hv as [? [_ Hv]]); unfold add in Hv; now rewrite (mkc_top _ _ _ Hv).
-    + now rewrite Hfv, Hf.
-  - (* slice *)
-    destruct (spec e) as [ra|] eqn:Sa; [|discriminate]. inversion Hsp; subst r.
-    destruct (IH e ra ltac:(lia) Sa) as [a [Ha [Ht Hf]]]. rewrite Ha; cbn [bind].
-    destruct (slice_flat_e a i j) as [v [Hv Hfv]]. exists v. split; [exact Hv|]. split; cbn [fst snd].
-    + now rewrite (slice_top _ _ _ _ Hv).
-    + now rewrite Hfv, Hf.
-  - (* + *)
-    destruct (spec e1) as [ra|] eqn:Sa; [|discriminate]. destruct (spec e2) as [rb|] eqn:Sb; [|discriminate].
-    inversion Hsp; subst r.
-    destruct (IH e1 ra ltac:(lia) Sa) as [a [Ha [Hta Hfa]]]. rewrite Ha; cbn [bind].
-    destruct (IH e2 rb ltac:(lia) Sb) as [b [Hb [Htb Hfb]]]. rewrite Hb; cbn [bind].
-    destruct (add_flat_e a b) as [v [Hv Hfv]]. exists v. split; [exact Hv|]. split; cbn [fst snd].
-    + unfold add in Hv. now rewrite (mkc_top _ _ _ Hv).
-    + now rewrite Hfv, erase_app, Hfa, Hfb.
-  - (* append *)
-    destruct (spec e1) as [ra|] eqn:Sa; [|discriminate]. destruct (spec e2) as [rb|] eqn:Sb; [|discriminate].
-    inversion Hsp; subst r.
-    destruct (IH e1 ra ltac:(lia) Sa) as [a [Ha [Hta Hfa]]]. rewrite Ha; cbn [bind].
-    destruct (IH e2 rb ltac:(lia) Sb) as [b [Hb [Htb Hfb]]]. rewrite Hb; cbn [bind].
-    destruct (append_flat_e a b) as [v [Hv Hfv]]. exists v. split; [exact Hv|]. split; cbn [fst snd].
-    + rewrite <- Hta. unfold append in Hv. destruct (is_multipart a) eqn:Hm.
-      * now apply (create_similar_top _ _ _ Hm Hv).
-      * unfold add in Hv. rewrite (mkc_top _ _ _ Hv). destruct a; cbn in Hm; try discriminate; reflexivity.
-    + now rewrite Hfv, erase_app, erase_push_opt, Hfa, Hfb, Hta.
-  - (* join *)
-    destruct (spec e) as [rs|] eqn:Ss; [|discriminate]. destruct (mapO spec es) as [rl|] eqn:M; [|discriminate].
-    inversion Hsp; subst r.
-    destruct (IH e rs ltac:(lia) Ss) as [s [Hs' [Hts Hfs]]]. rewrite Hs'; cbn [bind].
-    destruct (mapM_agrees (S n) es rl (IHl es ltac:(lia)) M) as [vs [Hvs HF]]. rewrite Hvs; cbn [bind].
-    destruct (join_flat_e s vs) as [v [Hv Hfv]]. exists v. split; [exact Hv|]. split; cbn [fst snd].
-    + unfold rjoin in Hv. now rewrite (mkc_top _ _ _ Hv).
-    + rewrite Hfv, erase_join, map_map, Hfs. f_equal.
-      clear - HF. induction HF as [|x y l l' [_ Hxy] _ IHF]; cbn; [reflexivity|]. now rewrite Hxy, IHF.
-Qed.
-
-(* ops_compose: any expression built from constructors, upper, lower, capitalize, capfirst,
-   slices, +, append and join, applied on top of one another in any way, evaluates without error
-   and renders as the same operations carried out on plain sequences of pairs *)
-Theorem ops_compose_e e r : spec e = Some r -> exists v, eval_c e = Ok v /\ agrees v r.
-Proof. intro H. unfold eval_c. now apply ops_compose_lem. Qed.
